@@ -169,7 +169,8 @@ def run(ctx):
             law("drive-kinds-agree-PM", PM(x, a.astype(complex), Vpi).signal, p1.signal)
             law("drive-kinds-agree-PM", PM(x, electrical_signal(a, dtype=complex), Vpi).signal, p1.signal)
             law("drive-kinds-agree-MZM", MZM(x, u.astype(complex), bias, Vpi, loss, ER, pol).signal, o.signal)
-            law("drive-kinds-agree-MZM", MZM(x, u.astype(np.float32).astype(float), bias, Vpi, loss, ER, pol).signal, MZM(x, u.astype(np.float32), bias, Vpi, loss, ER, pol).signal)
+            # (a drive stored in single precision is processed in single precision: agreement to about 1e-7 x the phase excursion - own tolerance class)
+            law("MZM-single-precision-drive", MZM(x, u.astype(np.float32).astype(float), bias, Vpi, loss, ER, pol).signal, MZM(x, u.astype(np.float32), bias, Vpi, loss, ER, pol).signal)
             # nearly constant and very small drives: the phase follows the drive sample by sample
             for dname, dv in (("dither", 4.0 + 2e-5 * rs.randn(n)), ("tiny", 3e-9 * np.where(np.arange(n) % 2 == 0, 1.0, -1.0) + 1e-10 * rs.randn(n)), ("step", np.where(np.arange(n) % 2 == 0, 1.0, 1.0 + 1e-7))):
                 if n < 2:
